@@ -1,17 +1,15 @@
-(* C38 — equivalent grid descriptions give identical simulations.  Model: model/Yee.v; lemmas: proofs/Yee_metric.v *)
+(* C38 — equivalent grid descriptions give identical simulations.  Model: model/Yee.v; lemmas: proofs/Yee_metric.v, proofs/Yee_metric_pml.v *)
 From Coq Require Import List Arith.
-From FV Require Import base.Scalar base.Cplx model.Yee proofs.Yee_steps proofs.Yee_metric.
+From FV Require Import base.Scalar base.Cplx model.Yee proofs.Yee_steps proofs.Yee_metric proofs.Yee_pml_loop proofs.Yee_metric_pml.
 Import ListNotations.
 
-(* PARTIAL in scope (PML-free scenes): a scene whose cell widths all equal its reference spacing (explicit rectilinear grid or
-   quasi-uniform policy with equal spacings, solved on the non-uniform code path with metric factors) steps, for any number of
-   steps, exactly like the same scene described by a uniform grid (all metric factors literally 1). *)
-Theorem C38_equal_spacing_is_uniform_partial : forall (K : Fld) (sc : scene K),
+(* For every scene of the model (any boundaries, materials, masks, sources, ANY list of CPML layers) whose cell widths all equal its
+   reference spacing — an explicit rectilinear grid or a quasi-uniform policy with equal spacings, solved with metric factors — and any
+   number of steps: the run equals, cell by cell (E, H and psi accumulators), the run of the same scene described by a uniform grid
+   (unit_metric: all metric factors literally 1).  same_state relates the two states cell by cell. *)
+Theorem C38_equal_spacing_is_uniform : forall (K : Fld) (sc : scene K),
   two K <> f0 K -> rf K sc <> f0 K ->
   (forall i, wx K sc i = rf K sc) -> (forall i, wy K sc i = rf K sc) -> (forall i, wz K sc i = rf K sc) ->
-  pmls K sc = [] ->
-  forall n s s', tstep s' = tstep s -> veqA K (fE s) (fE s') -> veqA K (fH s) (fH s') ->
-  veqA K (fE (iterM K sc n s)) (fE (iterM K (unit_metric K sc) n s')) /\
-  veqA K (fH (iterM K sc n s)) (fH (iterM K (unit_metric K sc) n s')).
-Proof. intros K sc H2 Hr Hx Hy Hz Hp n. exact (forward_metric_n K sc H2 Hr Hx Hy Hz Hp n). Qed.
-Print Assumptions C38_equal_spacing_is_uniform_partial.
+  forall n s s', same_state K s s' -> same_state K (iterM K sc n s) (iterM K (unit_metric K sc) n s').
+Proof. intros K sc H2 Hr Hx Hy Hz n. exact (forward_metric_pml_n K sc H2 Hr Hx Hy Hz n). Qed.
+Print Assumptions C38_equal_spacing_is_uniform.
